@@ -57,6 +57,7 @@ type vxC13Spec struct {
 	Set      bool `json:"set"`
 	Attempts int  `json:"attempts"`
 	DelayMs  int  `json:"delay"`
+	Zero     bool `json:"zero_delay,omitempty"` // the policy's delay is zero ("any delay"): the speculative executions start at once
 }
 
 type vxC13Cancel struct {
@@ -241,6 +242,7 @@ func vxC13Draw(t *rapid.T, forceSpec bool) *vxC13Case {
 			c.Spec.Attempts = 2
 		}
 		c.Spec.DelayMs = rapid.IntRange(1, 20).Draw(t, "spec_delay")
+		c.Spec.Zero = rapid.IntRange(0, 5).Draw(t, "spec_zero") == 0
 	} else {
 		c.Spec.DelayMs = 1
 	}
@@ -1080,6 +1082,9 @@ func vxC13Execute(c *vxC13Case, timeoutScale int) (*vxC13Obs, error) {
 	var sp SpeculativeExecutionPolicy
 	if c.Spec.Set {
 		sp = &SimpleSpeculativeExecution{NumAttempts: c.Spec.Attempts, TimeoutDelay: time.Duration(c.Spec.DelayMs) * time.Millisecond}
+		if c.Spec.Zero {
+			sp = &SimpleSpeculativeExecution{NumAttempts: c.Spec.Attempts}
+		}
 	}
 
 	var run func() error
